@@ -72,6 +72,40 @@ def run(plan):
             if o.kind != "ok":
                 res.fail(f"genuine handshake raised {o.exc_type}", repr(o.exc))
                 return
+        if plan.get("fresh_first"):
+            # the corrupted frame is the very first frame this object ever receives; afterwards it must be
+            # indistinguishable from a twin object that never saw it
+            fspec = {"base": "honest", "edit": [["corrupt"] + list(corrupt)], "place": "alone"}
+            dev.bad_frames = []
+            o = await s.do({"op": "caps" if kind == "caps" else "refresh", "net": [{"app": fspec}]})
+            if o.kind != "ok":
+                w.probe("operation_raised_(C14_domain)")
+                return
+            if not dev.bad_frames or codec.response_valid_by_stated_rule(dev.bad_frames[0]):
+                stats["exempt"] += 1
+                return
+            stats["judged"] += 1
+            twin = w.ns.AC(ip=ac.ip, port=ac.port, device_id=ac.id)
+            if s.version == 3:
+                from simkit.world import capture
+                o = await capture(w, twin.authenticate(s.token.hex(), s.key.hex()))
+                if o.kind != "ok":
+                    res.fail("twin handshake failed", repr(o))
+                    return
+            for obj in (ac, twin):
+                for meth in ("get_capabilities", "refresh", "refresh"):
+                    from simkit.world import capture
+                    o = await capture(w, getattr(obj, meth)())
+                    if o.kind != "ok":
+                        res.fail(f"clean {meth} after a rejected first frame failed", repr(o))
+                        return
+            sa, sb = snapshot(ac), snapshot(twin)
+            diff = {a: (sa[a], sb[a]) for a in sa if sa[a] != sb[a]}
+            if diff or ac.online != twin.online or ac.supported != twin.supported:
+                res.fail("a rejected frame left a trace: " + (sorted(diff)[0] if diff else "online/supported"),
+                         f"object that received the rejected frame first vs twin: {diff}")
+            w.fire("rejected_frame_is_the_first_frame_ever")
+            return
         for opn in ("caps", "refresh"):
             o = await s.do({"op": opn})
             if o.kind != "ok" or (opn == "refresh" and not ac.online):
@@ -92,7 +126,8 @@ def run(plan):
         dev.energy = bytes.fromhex(NEW_ENERGY)
         dev.humidity = bytes.fromhex(NEW_HUM)
         old_caps = dev.caps_pages
-        spec = {"base": "honest", "edit": [["corrupt"] + list(corrupt)], "place": plan.get("place", "alone")}
+        spec = {"base": "honest", "edit": [["corrupt"] + list(corrupt)], "place": plan.get("place", "alone"),
+                "n": plan.get("n", 12)}
         if s.version != 3:
             spec["place"] = "alone"          # several frames in one exchange need one TCP segment (V3)
         if kind == "propwrite":
@@ -143,7 +178,7 @@ def run(plan):
         def group_changed(g):
             return [(a, snap0[a], snap1[a]) for a in GROUPS[g] if snap0[a] != snap1[a]]
 
-        if spec["place"] == "bad_bad_good":
+        if spec["place"] in ("bad_bad_good", "many_then_good"):
             # the valid frame that follows the two rejected ones in the same exchange must still be used
             if not all(invalid[:1]):
                 stats["exempt"] += 1
@@ -203,7 +238,7 @@ def run(plan):
     res.take(w)
     res.add_fired(dev.fired)
     res.exempt = stats["exempt"]
-    res.key = (plan["config"]["version"], kind, tuple(corrupt))
+    res.key = (plan["config"]["version"], kind, tuple(corrupt), bool(plan.get("fresh_first")))
     res.nontrivial = stats["judged"] > 0
     return res
 
@@ -229,9 +264,10 @@ def space(tier):
                 version = 2 + (j + j // nvals) % 2
                 return {"config": cfg(version), "kind": kind, "corrupt": [pos, delta, fixup],
                         "caps_with_extra": rng.random() < 0.3,
+                        "fresh_first": kind in ("caps", "state") and rng.random() < 0.3,
                         # several frames in one exchange: the corrupted one twice / twice and then the valid one
-                        "place": rng.choice(["alone", "alone", "twice", "bad_bad_good"]) if kind != "caps" else
-                        rng.choice(["alone", "twice"])}
+                        "place": rng.choice(["alone", "alone", "twice", "bad_bad_good", "many_then_good"]) if kind != "caps" else
+                        rng.choice(["alone", "twice"]), "n": rng.choice([7, 8, 9, 16, 33])}
             reps = 2 if tier == "thorough" else 1
             sp.add(f"{label}_{kind}", len(positions) * nvals * reps, fn, exhaustive=(nvals == 255))
     return sp
